@@ -477,7 +477,9 @@ func runC14(p *core.Program, r *core.Report) {
 				}
 				uses := false
 				// in the clause or in an unexported helper it delegates the typing to
-				eng.InspectInlined(p, cinfo, p.Pkg("checker").Types, cc, 2, func(fn *types.Func, _ *ast.FuncDecl) bool { return !fn.Exported() && fn != combFn && fn.Name() != "visit" }, func(m ast.Node, _ *eng.InlineCtx, _ int) bool {
+				eng.InspectInlined(p, cinfo, p.Pkg("checker").Types, cc, 2, func(fn *types.Func, _ *ast.FuncDecl) bool {
+					return !fn.Exported() && fn != combFn && fn.Name() != "visit"
+				}, func(m ast.Node, _ *eng.InlineCtx, _ int) bool {
 					if rs, ok := m.(*ast.ReturnStmt); ok && len(rs.Results) >= 1 {
 						if c, ok := eng.Unparen(rs.Results[0]).(*ast.CallExpr); ok && eng.CalleeOf(cinfo, c) == combFn {
 							uses = true
